@@ -820,25 +820,40 @@ impl<'a> Interp<'a> {
             }
             Node::Render { name, mode, args } => {
                 let nv = self.eval_defined(name, "partial name")?;
-                let mut base = BTreeMap::new();
-                for (k, e) in args {
-                    let v = self.eval_arg(e)?;
-                    base.insert(k.clone(), v);
-                }
                 if let RenderMode::With(_, alias) | RenderMode::For(_, alias) = mode {
                     if args.iter().any(|(k, _)| k == alias) || alias == "forloop" {
                         return unspec("render alias also given as an argument");
                     }
                 }
+                // render-for: *when* the key: value arguments are evaluated (once, or again for
+                // every element) is not fixed by the statement. The reference evaluates them once
+                // and declares the case unspecified where the moment matters: an empty collection
+                // whose arguments would fail, or arguments whose values change between elements.
+                let items_for = match mode {
+                    RenderMode::For(c, _) => Some(self.collection(c)?),
+                    _ => None,
+                };
+                let mut base = BTreeMap::new();
+                for (k, e) in args {
+                    let v = match self.eval_arg(e) {
+                        Ok(v) => v,
+                        Err(Stop::Err) if items_for.as_ref().map_or(false, |i| i.is_empty()) => {
+                            return unspec("failing argument of a render-for over an empty collection");
+                        }
+                        Err(e) => return Err(e),
+                    };
+                    base.insert(k.clone(), v);
+                }
                 let runs: Vec<BTreeMap<String, RVal>> = match mode {
-                    RenderMode::Plain => vec![base],
+                    RenderMode::Plain => vec![base.clone()],
                     RenderMode::With(e, alias) => {
                         let v = self.eval_defined(e, "render with")?;
-                        base.insert(alias.clone(), v);
-                        vec![base]
+                        let mut m = base.clone();
+                        m.insert(alias.clone(), v);
+                        vec![m]
                     }
-                    RenderMode::For(c, alias) => {
-                        let items = self.collection(c)?;
+                    RenderMode::For(_, alias) => {
+                        let items = items_for.clone().unwrap_or_default();
                         let n = items.len();
                         items
                             .into_iter()
@@ -857,7 +872,15 @@ impl<'a> Interp<'a> {
                 }
                 let nodes = self.partial(&nv)?;
                 let is_for = matches!(mode, RenderMode::For(..));
-                for m in runs {
+                for (run_idx, m) in runs.into_iter().enumerate() {
+                    if is_for && run_idx > 0 {
+                        for (k, e) in args {
+                            match self.eval_arg(e) {
+                                Ok(v) if base.get(k).map_or(false, |b| b.dump() == v.dump()) => {}
+                                _ => return unspec("render-for arguments change between elements"),
+                            }
+                        }
+                    }
                     // isolation: only the arguments are visible; fresh assigned-variables layer
                     // and fresh registers (interrupts, cycle, ifchanged); counters stay shared
                     let saved_regs = std::mem::take(&mut self.regs);
@@ -870,8 +893,12 @@ impl<'a> Interp<'a> {
                     let inner = std::mem::replace(&mut self.regs, saved_regs);
                     self.loop_depth = saved_depth;
                     r?;
-                    if inner.interrupt.is_some() && is_for {
-                        return unspec("break/continue at the top level of a partial run by render-for");
+                    // render-for is a loop for the partial's own top-level interrupts (anchored
+                    // mechanism "render-for resets its own interrupt per iteration"): a break ends
+                    // the remaining elements, a continue goes on with the next; neither is ever
+                    // seen by the caller. With plain / with-as the interrupt just evaporates.
+                    if is_for && inner.interrupt == Some(Interrupt::Break) {
+                        break;
                     }
                 }
             }
